@@ -415,6 +415,23 @@ Proof.
   apply sp_bind; [exact Hh|]. intros r. apply pp_seq; [apply pres_hit0; assumption|apply pres_ret].
 Qed.
 
+Lemma pres_tween_x_none A pin pout h : A pin = true -> A pout = true -> N.eqb pin P_VIEW || is_cb pin = false ->
+  N.eqb pout P_VIEW || is_cb pout = false -> pres (Rs A) h -> pres (Rs A) (tween_x l sc pin pout None h).
+Proof.
+  intros H1 H2 V1 V2 Hh. unfold tween_x. apply ps_seq; [apply pres_hit0; assumption|].
+  apply sp_bind; [exact Hh|]. intros r. apply pp_seq; [apply pres_ret|].
+  apply pp_seq; [apply pres_hit0; assumption|apply pres_ret].
+Qed.
+Lemma pres_tween_x_some A pin pout m h : A pin = true -> A pout = true -> N.eqb pin P_VIEW || is_cb pin = false ->
+  N.eqb pout P_VIEW || is_cb pout = false -> pres Rsub m -> pres (Rp A) h ->
+  pres (Rs A) (tween_x l sc pin pout (Some m) h).
+Proof.
+  intros H1 H2 V1 V2 Hm Hh. unfold tween_x. apply ps_seq; [apply pres_hit0; assumption|].
+  apply ps_bind; [exact Hh|]. intros r. apply sp_seq.
+  - intros st st' r' E. apply Rsub_Rs. eapply Hm. exact E.
+  - apply pp_seq; [apply pres_hit0; assumption|apply pres_ret].
+Qed.
+
 (* everything under the over-tween's exit point *)
 Definition inner_pts : list N := P_UNDER_IN :: P_UNDER_OUT :: P_EXCVIEW :: P_EXCVIEW_HTTP :: handle_pts.
 
@@ -628,6 +645,37 @@ Proof.
       right. eexists. split; [reflexivity|exact HF].
 Qed.
 
+(* when the finished-callback loop ends with an exception, it is the LAST callback that ran which raised *)
+Lemma fin_spec_last : forall fuel st st' k,
+  (length (fq st) + pend 1 P_FIN_CB (s_regs sc) (nf st) < fuel)%nat -> fin_cbs fuel l sc st = (st', Ex k) ->
+  exists evs, log st' = log st ++ evs /\ evs <> [] /\
+    find_fault (s_faults sc) P_FIN_CB (nf st + N.of_nat (length evs) - 1) <> 0.
+Proof.
+  induction fuel as [|fuel IH]; intros st st' k Hlen E; [inversion Hlen|].
+  simpl in E. destruct (fq st) as [|o rest0] eqn:Eq; [discriminate|].
+  set (st1 := mkSt (stk st) (log st) (rq st) rest0 (nr st) (nf st + 1)) in *.
+  destruct (hit l sc P_FIN_CB o (nf st) false st1) as [st2 r2] eqn:Eh.
+  pose proof (hit_state _ _ _ _ _ _ _ _ _ Eh) as S2. pose proof (hit_result _ _ _ _ _ _ _ _ _ Eh) as R2.
+  cbv zeta in R2.
+  destruct (do_regs_spec (s_regs sc) P_FIN_CB (nf st) (log_ev l P_FIN_CB o st1)) as [_ [B [N1 [N2 [C D]]]]].
+  set (e0 := mkEv P_FIN_CB l (N.of_nat (length (stk st1))) (top_is l (stk st1)) o).
+  assert (L2 : log st2 = log st ++ [e0]) by (rewrite S2, B; reflexivity).
+  assert (Q2 : fq st2 = rest0 ++ regsfor 1 (s_regs sc) P_FIN_CB (nf st)) by (rewrite S2, D; reflexivity).
+  assert (NF2 : nf st2 = nf st + 1) by (rewrite S2, N2; reflexivity).
+  destruct (N.eqb (find_fault (s_faults sc) P_FIN_CB (nf st)) 0) eqn:K0.
+  - subst r2.
+    assert (Hl : (length (fq st2) + pend 1 P_FIN_CB (s_regs sc) (nf st2) < fuel)%nat).
+    { rewrite Q2, NF2, app_length. rewrite (pend_step 1 P_FIN_CB (s_regs sc) (nf st) eq_refl) in Hlen.
+      simpl in Hlen. lia. }
+    destruct (IH _ _ _ Hl E) as [evs [A1 [A2 A3]]].
+    exists (e0 :: evs). split; [rewrite A1, L2, <- app_assoc; reflexivity|]. split; [discriminate|].
+    rewrite NF2 in A3. intros X. apply A3. rewrite <- X. f_equal. simpl length. lia.
+  - apply N.eqb_neq in K0. exists [e0].
+    destruct (find_fault_valid sc P_FIN_CB (nf st) _ V eq_refl eq_refl K0) as [KF HF].
+    apply N.eqb_neq in KF. rewrite KF in R2. subst r2. injection E as <- _.
+    split; [exact L2|]. split; [discriminate|]. simpl. intros X. apply K0. rewrite <- X. f_equal. lia.
+Qed.
+
 End Loops.
 
 (* ------------------------------------------------------------ the judge on a log of the expected shape *)
@@ -655,11 +703,13 @@ Lemma judge_own_shape (tw : bool) (Lc Lr Ln Lf : list pev) (rest : list N) :
   (length Ln <= 1)%nat ->
   (existsb (is_pt p) Lc && negb (has_fault sc p) = true -> has_fault sc P_RESP_CB = false ->
      rest = [] /\ length Ln = 1%nat) ->
-  (has_fault sc P_FIN_CB = false ->
-     registered 1 (s_regs sc) (Lc ++ Lr ++ Ln) ++ registered_from 1 (s_regs sc) 0 0 Lf = map e_aux Lf) ->
+  forall restf,
+  registered 1 (s_regs sc) (Lc ++ Lr ++ Ln) ++ registered_from 1 (s_regs sc) 0 0 Lf = map e_aux Lf ++ restf ->
+  (has_fault sc P_FIN_CB = false -> restf = []) ->
+  (restf = [] \/ fin_last_raises sc 0 (map e_aux Lf) = true) ->
   judge_own l sc tw (Lc ++ Lr ++ Ln ++ Lf) = true.
 Proof.
-  intros p Hcur Hc Hr Hn Hf Hreg Hno Hn1 Hyes Hfin.
+  intros p Hcur Hc Hr Hn Hf Hreg Hno Hn1 Hyes restf Hfin Hfin2 Hfin3.
   assert (Hc16 : Forall (fun e => is_pt P_RESP_CB e = false) Lc) by (eapply Forall_impl; [|exact Hc]; intros e H; apply H).
   assert (Hc17 : Forall (fun e => is_pt P_NEWRESP e = false) Lc) by (eapply Forall_impl; [|exact Hc]; intros e H; apply H).
   assert (Hc18 : Forall (fun e => is_pt P_FIN_CB e = false) Lc) by (eapply Forall_impl; [|exact Hc]; intros e H; apply H).
@@ -720,13 +770,18 @@ Proof.
   { rewrite (app_assoc Lc Lr). rewrite from_first_app.
     - apply from_first_forall. exact Qnf.
     - apply Forall_app; split; [exact Hc17|apply (pt_is _ P_NEWRESP _ Hr eq_refl)]. }
-  unfold judge_own. cbv zeta. fold p. rewrite F18, F16, F17, EX, BF, RR, R1, FF1, FF2.
+  unfold judge_own, fin_clause. cbv zeta. fold p. rewrite F18, F16, F17, EX, BF, RR, R1, FF1, FF2.
   assert (C1 : forallb (fun e => negb (is_pt P_VIEW e || is_pt P_EXCVIEW e || is_pt P_EXCVIEW_HTTP e) || e_cur e) (Lc ++ Lr ++ Ln ++ Lf) = true).
   { apply forallb_forall. rewrite Forall_forall in Hcur. intros e I. rewrite (Hcur _ I). apply orb_true_r. }
   rewrite C1. cbn [andb].
-  assert (C2 : has_fault sc P_FIN_CB ||
-               (list_eqb (map e_aux Lf) (registered 1 (s_regs sc) (Lc ++ Lr ++ Ln) ++ registered_from 1 (s_regs sc) 0 0 Lf) && true) = true).
-  { destruct (has_fault sc P_FIN_CB) eqn:HF; [reflexivity|]. rewrite (Hfin eq_refl), list_eqb_refl. reflexivity. }
+  rewrite Hfin.
+  assert (C2 : (if has_fault sc P_FIN_CB
+                then is_prefix (map e_aux Lf) (map e_aux Lf ++ restf) &&
+                     (list_eqb (map e_aux Lf) (map e_aux Lf ++ restf) || fin_last_raises sc 0 (map e_aux Lf))
+                else list_eqb (map e_aux Lf) (map e_aux Lf ++ restf)) = true).
+  { destruct (has_fault sc P_FIN_CB) eqn:HF.
+    - rewrite is_prefix_app. cbn [andb]. destruct Hfin3 as [-> | ->]; [rewrite app_nil_r, list_eqb_refl; reflexivity|apply orb_true_r].
+    - rewrite (Hfin2 eq_refl), app_nil_r, list_eqb_refl. reflexivity. }
   rewrite C2. cbn [andb].
   destruct (existsb (is_pt p) Lc && negb (has_fault sc p)) eqn:CO.
   - destruct (has_fault sc P_RESP_CB) eqn:HR.
@@ -765,12 +820,34 @@ Definition Anot (p q : N) : bool := negb (N.eqb q p).
 Ltac covtac := let q := fresh "q" in let Hq := fresh "Hq" in
   intros q Hq; simpl in Hq; repeat (destruct Hq as [<-|Hq]; [reflexivity|]); destruct Hq.
 
+Lemma vsub_pres : forall sr, vsub sc subrun = Some sr -> pres (Rsub l P) sr.
+Proof. unfold vsub. intros sr. destruct (N.eqb (sub_place sc) 1); [discriminate|apply Hsub]. Qed.
+Lemma none_pres Q : forall sr, @None M = Some sr -> pres (Rsub l Q) sr.
+Proof. intros sr X; discriminate X. Qed.
+
+Lemma pres_chain_gen (A : N -> bool) (ev : N) : covers A (P_OVER_IN :: P_OVER_OUT :: inner_pts) ->
+  pres (Rs l sc P A) (tween_chain ev l sc subrun).
+Proof.
+  intros Cov.
+  assert (CI : covers A inner_pts) by (intros q Hq; apply Cov; right; right; exact Hq).
+  assert (C1 : A P_OVER_IN = true) by (apply Cov; left; reflexivity).
+  assert (C2 : A P_OVER_OUT = true) by (apply Cov; right; left; reflexivity).
+  unfold tween_chain, tsub, vsub. destruct (N.eqb (sub_place sc) 1).
+  - destruct subrun as [m|] eqn:Es.
+    + apply pres_tween_x_some; try reflexivity; try assumption.
+      * apply Hsub. reflexivity.
+      * exact (pres_excview_part l sc never None (none_pres never) A ev CI).
+    + apply pres_tween_x_none; try reflexivity; try assumption.
+      exact (pres_excview_part l sc P None (none_pres P) A ev CI).
+  - apply pres_tween_x_none; try reflexivity; try assumption.
+    exact (pres_excview_part l sc P subrun Hsub A ev CI).
+Qed.
+
 Lemma pres_chain (ev : N) (tw : bool) : pres (Rs l sc P A16) (invoke_chain ev l sc tw subrun).
 Proof.
   unfold invoke_chain. destruct tw.
-  - unfold tween_chain. apply pres_tween; try reflexivity.
-    eapply pres_excview_part; [exact Hsub|covtac].
-  - eapply pres_handle_request; [exact Hsub|covtac].
+  - apply pres_chain_gen. covtac.
+  - eapply pres_handle_request; [exact vsub_pres|covtac].
 Qed.
 
 Lemma NoP_hit p pt aux n mf : N.eqb pt p = false -> N.eqb pt P_VIEW || is_cb pt = false ->
@@ -783,11 +860,17 @@ Qed.
 Lemma LP_chain (ev : N) (tw : bool) : LP l sc (if tw then P_OVER_OUT else P_RENDERER) (invoke_chain ev l sc tw subrun).
 Proof.
   unfold invoke_chain. destruct tw.
-  - unfold tween_chain, tween.
+  - unfold tween_chain, tween_x.
     apply LP_seq; [apply NoP_hit; reflexivity|].
     apply LP_bind.
-    + eapply NoP_of; [eapply (pres_excview_part l sc P subrun Hsub (Anot P_OVER_OUT)); covtac|reflexivity].
-    + intros r. apply LP_last; [exact V|reflexivity|reflexivity].
+    + eapply NoP_of; [eapply (pres_excview_part l sc P _ vsub_pres (Anot P_OVER_OUT)); covtac|reflexivity].
+    + intros r. apply LP_seq.
+      * unfold tsub. destruct (N.eqb (sub_place sc) 1); [destruct subrun as [m|] eqn:Es|].
+        -- apply (NoP_of l sc (Anot P_OVER_OUT) P); [|reflexivity]. intros st st' r' E.
+           apply (Rsub_Rs l sc P (Anot P_OVER_OUT)). eapply (Hsub m eq_refl). exact E.
+        -- eapply NoP_of; [apply (pres_ret l sc (Anot P_OVER_OUT) never)|reflexivity].
+        -- eapply NoP_of; [apply (pres_ret l sc (Anot P_OVER_OUT) never)|reflexivity].
+      * apply LP_last; [exact V|reflexivity|reflexivity].
   - unfold handle_request.
     apply LP_seq; [apply NoP_hit; reflexivity|].
     apply LP_bind.
@@ -804,7 +887,7 @@ Proof.
     apply LP_bind; [apply NoP_hit; reflexivity|]. intros ok2.
     apply LP_if; [apply LP_raise|].
     apply LP_seq.
-    + eapply NoP_of; [eapply (pres_view_body l sc P subrun Hsub (Anot P_RENDERER)); reflexivity|reflexivity].
+    + eapply NoP_of; [eapply (pres_view_body l sc P _ vsub_pres (Anot P_RENDERER)); reflexivity|reflexivity].
     + apply LP_last; [exact V|reflexivity|reflexivity].
 Qed.
 
@@ -908,7 +991,7 @@ Proof.
     + eapply Forall_impl; [|exact Of]. intros e H; cbv beta in *; lia.
   - rewrite !ge_log_app, Or2, On2, Of2, !app_nil_r. exact Sc.
   - intros Hcur. rewrite !lvl_log_app, Or1, On1, Of1.
-    apply (judge_own_shape l sc tw (lvl_log l nc) Lr Ln Lf rest).
+    apply (judge_own_shape l sc tw (lvl_log l nc) Lr Ln Lf rest) with (restf := restf).
     + rewrite <- Or1, <- On1, <- Of1, <- !lvl_log_app. apply Forall_filter. exact Hcur.
     + exact HcL.
     + eapply Forall_impl; [|exact Fr]. intros e H; apply H.
@@ -920,9 +1003,14 @@ Proof.
     + exact Hn1.
     + intros X. apply Hyes. rewrite <- CO. unfold cameb. rewrite <- X. f_equal.
       unfold lvl_log. rewrite existsb_filter. reflexivity.
-    + intros HF. destruct B5 as [[_ ->]|[k [_ HF']]]; [|congruence].
-      rewrite app_nil_r in B1. rewrite <- B1, Fm, Fq. f_equal.
+    + rewrite <- B1, Fm, Fq. f_equal.
       unfold registered. rewrite registered_from_app, Z16, Z18, (registered_from_nocb _ _ _ Ncb). reflexivity.
+    + intros HF. destruct B5 as [[_ ->]|[k [_ HF']]]; [reflexivity|congruence].
+    + destruct B5 as [[_ ->]|[k [-> _]]]; [left; reflexivity|right].
+      destruct (fin_spec_last l sc V _ _ _ _ (Nat.lt_succ_diag_r _) Ef) as [Lf' [B2' [NE FL]]].
+      assert (Lf' = Lf) by (rewrite B2 in B2'; apply app_inv_head in B2'; auto). subst Lf'.
+      unfold fin_last_raises. rewrite map_length. destruct Lf as [|e0 Lf0]; [contradiction NE; reflexivity|].
+      cbn [map]. rewrite NFm in FL. apply negb_true_iff. apply N.eqb_neq. exact FL.
 Qed.
 
 End Request.
@@ -933,7 +1021,7 @@ Proof.
   fix IH 1. intros [r fs rs sb] k tw lg. simpl.
   assert (X : lvl_log k (ge_log k lg) = lvl_log k lg).
   { apply filter_filter_imp. intros e H. apply N.eqb_eq in H. apply N.leb_le. lia. }
-  unfold judge_level. rewrite X. f_equal. destruct sb as [|tw' sc']; [reflexivity|].
+  unfold judge_level. rewrite X. f_equal. destruct sb as [|tw' pl' sc']; [reflexivity|].
   assert (Y : lvl_log (k + 1) (ge_log k lg) = lvl_log (k + 1) lg).
   { apply filter_filter_imp. intros e H. apply N.eqb_eq in H. apply N.leb_le. lia. }
   rewrite Y. destruct (lvl_log (k + 1) lg); [reflexivity|].
@@ -961,17 +1049,17 @@ Proof.
   unfold pop, upd_stk in Ef. injection Ef as <- <-.
   simpl in VT. apply andb_true_iff in VT. destruct VT as [VL VS].
   set (scx := Scn rt fs rs sb) in *.
-  set (Psub := match sb with NoSub => never | Sub tw' sc' => subP (l + 1) sc' tw' end).
-  assert (Hsub : forall sr, match sb with NoSub => None | Sub tw' sc' => Some (run_request ev (l + 1) sc' tw') end = Some sr ->
+  set (Psub := match sb with NoSub => never | Sub tw' _ sc' => subP (l + 1) sc' tw' end).
+  assert (Hsub : forall sr, match sb with NoSub => None | Sub tw' _ sc' => Some (run_request ev (l + 1) sc' tw') end = Some sr ->
                  pres (Rsub l Psub) sr).
-  { intros sr Hs. destruct sb as [|tw' sc']; [discriminate|]. injection Hs as <-.
+  { intros sr Hs. destruct sb as [|tw' pl' sc']; [discriminate|]. injection Hs as <-.
     intros a b rr Er. destruct (run_request_judged sc' ev (l + 1) tw' a b rr VS Er) as [n [A1 [A2 [A3 [A4 [A5 [A6 A7]]]]]]].
     exists n. repeat split; auto. }
   pose proof (fun a b c d => request_judged l scx VL Psub _ Hsub ev tw _ _ _ a b c d Ei) as RJ.
   destruct (RJ eq_refl eq_refl eq_refl eq_refl) as [new [L [F [S J]]]].
   exists new. cbn [stk log rq fq nr nf] in *. repeat split; auto.
   intros Hcur. subst scx. simpl. unfold judge_level. rewrite (J Hcur). cbn [andb].
-  destruct sb as [|tw' sc']; [reflexivity|].
+  destruct sb as [|tw' pl' sc']; [reflexivity|].
   assert (Y : lvl_log (l + 1) new = lvl_log (l + 1) (ge_log (l + 1) new)).
   { symmetry. apply filter_filter_imp. intros e H. apply N.eqb_eq in H. apply N.leb_le. lia. }
   destruct S as [S|S].
